@@ -265,7 +265,7 @@ pub(crate) mod __verif {
         e3b_body(LoopStep::EnterThenExit);
     }
 
-    // @obligation name=e3b_bt_run_loop_undo_lazy props=C01:t,C02:t,C05:t fn=classicalbacktrack::MatchAttempter::run_loop,classicalbacktrack::MatchAttempter::try_backtrack kind=complete domain="every iters, min<=iters<max, lazy, entry/pos in a 2-byte haystack" min_checks=300 w=5 timeout=3000
+    // @obligation name=e3b_bt_run_loop_undo_lazy props= fn=classicalbacktrack::MatchAttempter::run_loop,classicalbacktrack::MatchAttempter::try_backtrack kind=complete domain="every iters, min<=iters<max, lazy, entry/pos in a 2-byte haystack" min_checks=300 w=5 timeout=3000
     // Lazy loop with both arms viable: backtracking enters the loop (iters+1, entry=pos) from the same position; giving
     // that up as well restores the loop data (entry included, #131).
     #[kani::proof]
